@@ -20,7 +20,7 @@ sys.path.insert(0, os.path.dirname(os.path.abspath(__file__)))
 import common as C  # noqa: E402
 import gen as G  # noqa: E402
 
-PROPS = ('C03', 'C05', 'C07', 'C08', 'C09', 'C10')
+PROPS = ('C03', 'C05', 'C07', 'C08', 'C09', 'C10', 'C18')
 PYTHON = '/venv/bin/python'
 RUNNER = os.path.join(C.VERIF, 'harness', 'py_halves.py')
 CPY = os.path.join(C.VERIF, 'cpy')
@@ -34,6 +34,7 @@ THEOREMS_BY_PROP = {
     'C08': ['concat_axis0_app', 'concat_axis1_zipapp', 'concat_axis1_lengths'],
     'C09': ['is_none_exact', 'is_none_union_exact', 'is_none_union_axis1', 'is_none_exact_axis1', 'mask_exact', 'mask_exact_lists', 'fill_none_exact', 'fill_none_exact_axis1',
             'firsts_singletons'],
+    'C18': [],
     'C10': ['unzip_zip_partial', 'unzip_zip_lists', 'with_field_get_same', 'with_field_get_other', 'with_field_preserves_shape',
             'with_field_preserves_lists'],
 }
@@ -985,7 +986,109 @@ def cases_C10(rng, tier):
     return out
 
 
-GENERATORS = dict(C03=cases_C03, C05=cases_C05, C07=cases_C07, C08=cases_C08, C09=cases_C09, C10=cases_C10)
+# ---------------------------------------------------------------------------------------------- C18 (partitioned)
+def cases_C18(rng, tier):
+    """the same high-level call on an array and on ak.partitioned(pieces of it): plain values / error status must agree.
+    Cuts: 1-4 partitions, empty partitions at the start / in the middle / at the end."""
+    n = 2500 if tier == 'quick' else 60000
+    out = []
+    for i in range(n):
+        cid = 'q%d' % i
+        func = rng.choice(['num', 'flatten', 'local_index', 'sort', 'sort', 'argsort', 'combinations', 'combinations',
+                           'argcombinations', 'pad_none', 'fill_none', 'is_none', 'reduce', 'reduce', 'reduce', 'firsts',
+                           'getitem', 'getitem', 'getitem', 'to_list', 'len'])
+        kw = dict(allow_union=False)
+        special = True
+        if func == 'reduce':
+            kw.update(allow_str=False, allow_rec=False, leaf_dtypes=RED_LEAVES)
+            special = False
+        if func in ('sort', 'argsort'):
+            kw.update(allow_rec=False, allow_str=rng.random() < 0.2)
+            special = False
+        if func == 'fill_none':
+            kw.update(allow_str=False, leaf_dtypes=NUM)
+            special = False
+        a = G.gen_array(rng, depth=rng.choice([1, 2, 2, 3]), canonical_too=False, type_kw=kw, special=special,
+                        toplen=rng.choice([0, 1, 2, 3, 4, 5, 6, 7, 8, 9, 11]))
+        t = a['type']
+        L = len(a['vals'])
+        k = rng.choice([1, 2, 2, 3, 3, 4])
+        cuts = sorted(rng.choice([0, L] + list(range(L + 1))) for _ in range(k - 1))
+        mn, mx = G.list_depth(t)
+        extra = []
+
+        def axis(allow_zero=True):
+            r = rng.random()
+            if r < 0.4:
+                return rng.randint(0 if allow_zero else 1, max(mx - 1, 0 if allow_zero else 1))
+            if r < 0.9:
+                return -rng.randint(1, mx)
+            return rng.choice([mx, -mx - 1])
+        if func in ('num', 'local_index'):
+            args = [str(axis())]
+        elif func == 'flatten':
+            args = [rng.choice(['none', str(axis(False)), str(axis(False))])]
+        elif func in ('sort', 'argsort'):
+            args = [str(-1 if G.has_kind(t, 'str') else axis()), rng.choice(['true', 'false']), rng.choice(['true', 'true', 'false'])]
+            if func == 'argsort' or args[2] == 'false':
+                args[2] = 'true' if func == 'argsort' else args[2]    # unstable argsort: any order-realising permutation is legal
+        elif func in ('combinations', 'argcombinations'):
+            args = [str(rng.choice([1, 2, 2, 3])), rng.choice(['true', 'false']), str(axis()), 'none']
+        elif func == 'pad_none':
+            args = [str(rng.choice([0, 1, 2, 3, 5])), str(axis()), rng.choice(['true', 'false'])]
+        elif func == 'fill_none':
+            args = [rng.choice(['none', 'default', str(axis())])]
+            extra = ['(val int %d)' % rng.randint(-9, 99)]
+        elif func in ('is_none', 'firsts'):
+            args = [str(axis())]
+        elif func == 'reduce':
+            args = [rng.choice(REDUCERS), rng.choice(['none', 'none', str(axis()), str(axis())]),
+                    rng.choice(['default', 'true', 'false']), rng.choice(['false', 'false', 'true'])]
+        elif func == 'getitem':
+            items = []
+            r = rng.random()
+
+            def bound():
+                return 'none' if rng.random() < 0.3 else str(rng.randint(-L - 2, L + 2))
+            if r < 0.25:
+                items.append('(at %d)' % rng.randint(-L - 1, L))
+            elif r < 0.75:
+                items.append('(rng %s %s %s)' % (bound(), bound(), rng.choice(['none', '1', '2', '3', '4', '5', '-1', '-2', '-3', '-4'])))
+            else:
+                m = rng.choice([0, 1, 2, 3, 5])
+                items.append('(arr %s)' % ' '.join(str(rng.randint(-L, L - 1) if L else 0) for _ in range(m)))
+            if mn >= 2 and rng.random() < 0.5 and not G.has_kind(t, 'rec'):
+                q = rng.random()
+                if q < 0.4:
+                    items.append('(at %d)' % rng.randint(-2, 2))
+                elif q < 0.8 or items[0].startswith('(arr'):
+                    items.append('(rng %s %s %s)' % (rng.choice(['none', '0', '1', '-1']), rng.choice(['none', '1', '2', '-1']),
+                                                     rng.choice(['none', '1', '2', '-1'])))
+            args = ['(' + ' '.join(items) + ')']
+        else:
+            args = []
+        ax = None
+        for x in args:
+            try:
+                ax = int(x)
+                break
+            except ValueError:
+                pass
+        if func in ('combinations', 'argcombinations'):
+            ax = int(args[2])
+        if func == 'pad_none':
+            ax = int(args[1])
+        if func == 'reduce':
+            ax = None if args[1] == 'none' else int(args[1])
+        tags = dict(func='part:' + func, nparts=k, empty_parts=sum(1 for b0, b1 in zip([0] + cuts, cuts + [L]) if b0 == b1),
+                    axis=ax, negaxis_rec=negrec(ax, t) if ax is not None else False, reducer=(args[0] if func == 'reduce' else None))
+        tags_enc(tags, a)
+        out.append(C.Case(cid, 'part', ['(' + ' '.join(map(str, cuts)) + ')', func] + args, [arr(a['layout'])] + extra,
+                          dict(nontrivial=(k >= 2 and L >= 1), tags=tags, types=[t])))
+    return out
+
+
+GENERATORS = dict(C03=cases_C03, C05=cases_C05, C07=cases_C07, C08=cases_C08, C09=cases_C09, C10=cases_C10, C18=cases_C18)
 
 
 def case_of_line(ln, meta=None):
